@@ -579,6 +579,8 @@ class Exec:
         spec = self.loopspecs.get(key)
         if spec is not None:
             return spec.run(self, st, env)
+        if key is not None and (key[0], None) in self.loopspecs and isinstance(st, ast.For):
+            pass
         if isinstance(st, ast.For):
             it = self.ev(st.iter, env)
             items = self.iterate(it)
